@@ -17,6 +17,10 @@ for l in open('/verif/properties.jsonl'):
             t+="\nAdditional guidance for this round: other developers have already tried the most classic ideas (an RAII guard dropped too early by `let _ =`, deleting or weakening a barrier/ordering, swapping two adjacent statements, skipping a check on a re-used entry, capturing a raw descriptor instead of an owner). Find a DIFFERENT mechanism: for instance an error/early-return path that forgets a step, state that is updated in the wrong order only on a rarely taken branch, an off-by-one or wrong-width arithmetic on a boundary value, a cached value that goes stale, an optimisation that is only valid single-threaded, or a change in one crate/file whose assumption is silently relied upon by another.\n"
         if int(R)>=3:
             t+="\nFurther guidance for round 3: strongly prefer a defect that needs TWO cooperating code sites (e.g. a helper function whose contract you change slightly - return value meaning, ownership, ordering, which thread/at which depth it runs - plus a caller that relied on the old contract), or one that only shows on an error/failure/cleanup path (a syscall failing, a panic being unwound, a constructor failing half-way, a descriptor or allocation being reused), or on a boundary configuration (maximum sizes, the highest/lowest valid signal numbers, zero-length sets, the same object registered twice). Single-line mutations of the core algorithm have all been tried already.\n"
+        if int(R)>=4:
+            import json as _j
+            tried=_j.load(open('/verif/tools/seed_tried.json')).get(pid,[])
+            t+="\nFurther guidance for round 4: the following ideas have ALREADY been used by other developers for this very property - do not repeat them or close variants of them:\n"+"".join("  - %s\n"%x for x in tried)+"Pick a clause of the property, an API entry point, a configuration (signal number range, exfiltrator type, descriptor kind, calling convention, thread role) or a code path (error, cleanup, retry, overflow, re-entrancy, clone/drop of handles) that NONE of the above touches. Read the whole property statement again and look for a promise that is implemented by code you have not seen mentioned above. A change confined to one crate of the workspace whose effect shows only through another crate is welcome, as is a change that is correct on x86-64 hardware with the usual schedule but wrong for a precisely timed signal arrival. Keep it realistic: something a maintainer could merge as a clean-up, a performance tweak, a portability fix or a small feature.\n"
         open(O+'/prompt.txt','w').write(t)
 PY
 done
